@@ -341,6 +341,7 @@ func (c *c06) Check(rr *RunResult, st *Stats) []Failure {
 	fs := KernelFailures(rr, true)
 	fs = append(fs, BufferFailures(rr)...)
 	fs = append(fs, AliasMemoryFailures(rr)...)
+	fs = append(fs, PreFailures(rr)...)
 	if rr.Out.Class != "" {
 		return fs
 	}
